@@ -1,14 +1,133 @@
 package VERIFPKG
 
-// Virtual environment API: only meaningful inside symgo (whole-program
-// harnesses are replayed against the real binary, not natively in-process).
+// Virtual environment API.  Inside symgo: a per-path virtual file system,
+// os.Args, stdout capture and os.Exit capture around the real main().
+// Natively (replay): the same calls build a real directory, run the real
+// binary named by VERIF_BIN in it and observe files / output / exit status.
 
-func verifSetArgs(args []string)              { panic("verifSetArgs: symgo only") }
-func verifSetFile(path, content string)       { panic("verifSetFile: symgo only") }
-func verifFailRead(path string)               { panic("verifFailRead: symgo only") }
-func verifFailWrite(path string)              { panic("verifFailWrite: symgo only") }
-func verifFile(path string) (string, bool)    { panic("verifFile: symgo only") }
-func verifNumWrites() int                     { panic("verifNumWrites: symgo only") }
-func verifWrite(k int) (string, string, bool) { panic("verifWrite: symgo only") }
-func verifStdout() string                     { panic("verifStdout: symgo only") }
-func verifRunMain(f func()) int               { panic("verifRunMain: symgo only") }
+import (
+	"bytes"
+	"context"
+	"os"
+	"os/exec"
+	"path/filepath"
+	"sort"
+	"time"
+)
+
+var (
+	verifRoot   string
+	verifArgv   []string
+	verifInputs = map[string]string{}
+	verifOutBuf string
+	verifErrBuf string
+	verifWrote  []string
+)
+
+func verifRootDir() string {
+	if verifRoot == "" {
+		d, err := os.MkdirTemp("", "verif-native-")
+		if err != nil {
+			panic(err)
+		}
+		verifRoot = d
+	}
+	return verifRoot
+}
+
+func verifCleanup() {
+	if verifRoot != "" {
+		os.RemoveAll(verifRoot)
+	}
+}
+
+func verifSetArgs(args []string) { verifArgv = append([]string(nil), args...) }
+
+func verifSetFile(path, content string) {
+	full := filepath.Join(verifRootDir(), path)
+	os.MkdirAll(filepath.Dir(full), 0755)
+	if err := os.WriteFile(full, []byte(content), 0644); err != nil {
+		panic(verifAssumeFailed{}) // name not representable on a real file system
+	}
+	verifInputs[filepath.Clean(path)] = content
+}
+
+// a directory in the way makes both ReadFile and WriteFile fail
+func verifFailRead(path string) {
+	full := filepath.Join(verifRootDir(), path)
+	os.Remove(full)
+	os.MkdirAll(full, 0755)
+}
+
+func verifFailWrite(path string) {
+	full := filepath.Join(verifRootDir(), path)
+	os.MkdirAll(full, 0755)
+}
+
+func verifFile(path string) (string, bool) {
+	b, err := os.ReadFile(filepath.Join(verifRootDir(), path))
+	if err != nil {
+		return "", false
+	}
+	return string(b), true
+}
+
+func verifNumWrites() int { return len(verifWrote) }
+
+func verifWrite(k int) (string, string, bool) {
+	c, _ := verifFile(verifWrote[k])
+	return verifWrote[k], c, true
+}
+
+func verifStdout() string { return verifOutBuf }
+
+// verifRunMain runs the real binary (VERIF_BIN) with the arguments set by
+// verifSetArgs in the directory built by verifSetFile.
+func verifRunMain(f func()) int {
+	bin := os.Getenv("VERIF_BIN")
+	if bin == "" {
+		panic("VERIF_BIN not set")
+	}
+	root := verifRootDir()
+	ctx, cancel := context.WithTimeout(context.Background(), 20*time.Second)
+	defer cancel()
+	var args []string
+	if len(verifArgv) > 1 {
+		args = verifArgv[1:]
+	}
+	cmd := exec.CommandContext(ctx, bin, args...)
+	cmd.Dir = root
+	var so, se bytes.Buffer
+	cmd.Stdout, cmd.Stderr = &so, &se
+	err := cmd.Run()
+	verifOutBuf, verifErrBuf = so.String(), se.String()
+	if ctx.Err() != nil {
+		panic("VERIF-HANG: the binary did not terminate within 20s")
+	}
+	code := 0
+	if err != nil {
+		if ee, ok := err.(*exec.ExitError); ok {
+			code = ee.ExitCode()
+		} else {
+			panic(err)
+		}
+	}
+	if bytes.Contains(se.Bytes(), []byte("fatal error:")) {
+		panic("VERIF-FATAL: " + verifErrBuf[:min(len(verifErrBuf), 200)])
+	}
+	// files written = regular files that are new or differ from the inputs
+	verifWrote = nil
+	filepath.Walk(root, func(p string, info os.FileInfo, err error) error {
+		if err != nil || info.IsDir() {
+			return nil
+		}
+		rel, _ := filepath.Rel(root, p)
+		b, _ := os.ReadFile(p)
+		if in, ok := verifInputs[rel]; !ok || in != string(b) {
+			verifWrote = append(verifWrote, rel)
+		}
+		return nil
+	})
+	sort.Strings(verifWrote)
+	return code
+}
